@@ -24,6 +24,10 @@ def window_scripts():
         out.append({"id": "reload-held-at-%s" % gate.split(".")[-1], "seed": 1, "procs": procs, "holds": [{"gate": gate, "nth": 1, "until": "c1.accept.2"} if gate == "rl.reload.initiated" else {"gate": gate, "nth": 1, "sleepMs": 15}]})
     # a downstream call in progress (slow final flush of a closing sink, slow accept: a busy pipeline) overlaps a reload:
     # the reload has to wait for it; nothing may reach the old generation after its shutdown
+    for kind in ("ok", "invalid"):      # ... and a downstream that is slow to build the sink of a connection that is just registering
+        procs = [{"name": "c1", "ops": [{"at": 0, "do": "newsink", "num": 3}, {"at": 0, "do": "accept", "stamp": 1}, {"after": "ReloadEnd", "do": "accept", "stamp": 2}, {"at": 0, "do": "close"}]},
+                 {"name": "r", "ops": [{"after": "GateHeld", "do": "reload", "kind": kind}]}]
+        out.append({"id": "downstream-slow-newsink-%s" % kind, "seed": 1, "procs": procs, "holds": [{"gate": "d.newsink", "nth": 1, "sleepMs": 25}]})
     for gate, nth in (("d.close", 1), ("d.accept", 2)):
         for kind in ("ok", "invalid"):
             procs = [conn("c1", 3, extra=[{"at": 0, "do": "accept", "stamp": 2}]),
